@@ -639,7 +639,8 @@ impl<'lexer> Lexer<'lexer> {
     // variable name is the name before the keyword `in`
     // ------------------------------------------------------------------------
     if self.till_in {
-      if let Some(index) = parts.iter().position(|value| value == "in") {
+      // the keyword `in` at the very beginning leaves no variable name before it
+      if let Some(index) = parts.iter().position(|value| value == "in").filter(|index| *index > 0) {
         self.till_in = false;
         parts.truncate(index);
         self.position = consumed_positions[index - 1] + 1;
